@@ -147,7 +147,7 @@ MCMutateEnd ==
 MCCommit ==
     /\ pc = "mutated"
     /\ LET o == [batch |-> [i \in DOMAIN cur |-> cur[i].rec], histLen |-> Len(hist) + 1,
-                 keyLens |-> <<Len(hist) + 1>>, prefixSame |-> TRUE]
+                 keyLens |-> <<Len(hist) + 1>>, prefixSame |-> TRUE, blobsOK |-> TRUE]
        IN Take(CM_Clauses(o), CommitU(o))
     /\ atOne' = IF beta = cfg.one THEN atOne + 1 ELSE atOne
     /\ UNCHANGED <<nextId, ckvars>>
